@@ -373,7 +373,7 @@ fn case(bytes: &[u8], with_bin: bool) -> Outcome {
 }
 
 fn case_regress(doc: &serde_json::Value) -> Outcome {
-    let Some(g) = G::from_json(&doc["g"]) else { return Outcome::Broken("bad regress file".into()) };
+    let Some(g) = super::common::grammar_from_doc(doc) else { return Outcome::Broken("bad regress file".into()) };
     let text = crate::print::print_minimal(&g);
     judge(&g, &text, true, 0)
 }
